@@ -10033,3 +10033,113 @@ func ruleActionBindingsOwn(prop string) ruleFn {
 		}
 	}
 }
+
+// JOB-FLAG-LOCKED (C16): the fields of a job that the cron writes under its lock are read under it.
+func ruleJobFlagLocked(w *World, r *Report) {
+	r.Rule("JOB-FLAG-LOCKED", "the in-memory cron marks a job that is removed while its Fn runs (`cancelled`), under the cron's mutex, from the goroutine of whoever removes it; the job's own goroutine runs at that moment.  Every read of an unexported field of cron.CronJob that some method of cron.Cron stores under the mutex — a read of the field, or a copy of the whole struct (`*job`, as in a log record) — is therefore made with the mutex held: in the function, after a Lock that is not released in between, or in a function all of whose callers hold it at the call.  Anything else is a data race between `Rem` and a tick", 1)
+	cronT := w.Named("cron", "Cron")
+	jobT := w.Named("cron", "CronJob")
+	e := newLocksetEngine(w, guardsCron())
+	lock := "cron.Cron.Mutex"
+	// the fields in question: unexported fields of CronJob stored in a method of Cron
+	guarded := map[string]bool{}
+	for _, fn := range w.MethodsOf(cronT) {
+		allInstrs(fn, func(in ssa.Instruction) {
+			st, ok := in.(*ssa.Store)
+			if !ok {
+				return
+			}
+			n, f, _, ok := fieldOf(st.Addr)
+			if ok && n == jobT && !token.IsExported(f) {
+				guarded[f] = true
+			}
+		})
+	}
+	if len(guarded) == 0 {
+		r.ok("JOB-FLAG-LOCKED", "type=cron.CronJob", w.Pos(jobT.Obj().Pos()), "no unexported field of a job is written by the cron: nothing to guard")
+		return
+	}
+	var held func(fn *ssa.Function, at ssa.Instruction, depth int) bool
+	held = func(fn *ssa.Function, at ssa.Instruction, depth int) bool {
+		ok := false
+		allInstrs(fn, func(a ssa.Instruction) {
+			if ok || !e.acquires(a, lock) || !instrDominates(a, at) {
+				return
+			}
+			if _, isDefer := a.(*ssa.Defer); isDefer {
+				return
+			}
+			if x := between(fn, a, at, func(y ssa.Instruction) bool {
+				_, isDefer := y.(*ssa.Defer)
+				return !isDefer && e.releases(y, lock)
+			}); x == nil {
+				ok = true
+			}
+		})
+		if ok {
+			return true
+		}
+		if depth >= 3 {
+			return false
+		}
+		callers := 0
+		for _, ed := range w.Callers(fn) {
+			cf := ed.Caller.Func
+			if isTestFile(w, cf) || cf.Synthetic != "" {
+				continue
+			}
+			callers++
+			site, isI := ed.Site.(ssa.Instruction)
+			if !isI {
+				return false
+			}
+			if _, isGo := site.(*ssa.Go); isGo {
+				return false
+			}
+			if !held(cf, site, depth+1) {
+				return false
+			}
+		}
+		return callers > 0
+	}
+	n := 0
+	for _, fn := range w.Funcs {
+		if w.RelPkg(fn) != "cron" || isTestFile(w, fn) {
+			continue
+		}
+		allInstrs(fn, func(in ssa.Instruction) {
+			u, ok := in.(*ssa.UnOp)
+			if !ok || u.Op != token.MUL {
+				return
+			}
+			what := ""
+			if nn := namedOf(u.Type()); nn == jobT {
+				if _, isStruct := u.Type().Underlying().(*types.Struct); isStruct {
+					if pt, isP := u.X.Type().Underlying().(*types.Pointer); isP && namedOf(pt.Elem()) == jobT {
+						if _, local := u.X.(*ssa.Alloc); !local { // (a struct the function just made is nobody else's)
+							what = "a copy of the whole job"
+						}
+					}
+				}
+			}
+			if fa, isFA := u.X.(*ssa.FieldAddr); isFA {
+				if nn, f, _, ok := fieldOf(fa); ok && nn == jobT && guarded[f] {
+					what = "a read of `" + f + "`"
+				}
+			}
+			if what == "" {
+				return
+			}
+			n++
+			key := "fn=" + fname(fn) + " read#" + itoa(n)
+			if held(fn, in, 0) {
+				r.ok("JOB-FLAG-LOCKED", key, w.PosOf(in), what+" with the cron's mutex held")
+			} else {
+				r.violation("JOB-FLAG-LOCKED", "fn="+fname(fn), w.PosOf(in), what+" without the cron's mutex: `Rem` writes the job's flag under the mutex at the same time (a data race; `go test -race` reports it)")
+			}
+		})
+	}
+	if n == 0 {
+		r.exempt("JOB-FLAG-LOCKED", "type=cron.CronJob", w.Pos(jobT.Obj().Pos()), "no read found: shape not recognised, not decided")
+	}
+}
